@@ -18,3 +18,13 @@ CLAIMED['C14'] = dict(
     text='Proof: for read_inline/crossline/zslice/subvolume/volume/subplane/get_trace: raises IndexError/WrongDimensionalityError iff an argument is '
          'outside the real extent (both directions, all paths), otherwise every element is a real stored sample.',
     note='diagonals, number/coordinate lookups, header reads and accessors not yet under contract; same trusted base as C02')
+CLAIMED['C03'] = dict(
+    text='Proof of the header-assembly, version-codec and header-parsing part: make_header words = spec expressions (exact block count, array length, '
+         'counts, version word) for every valid setting and all shapes; version encode/decode bijection and order (symbolic); reader parsers read the same words. '
+         'Footer writers / file length / cropper / re-blocker conformance and version-string parsing are NOT covered by this check yet.',
+    note='assumed contract for SeismicZfpVersion(str); AX-STRUCT; HeaderwordInfo.to_buffer/get_header_array_count abstracted at the make_header call site')
+CLAIMED['C05'] = dict(
+    text='Proof: make_header stores axis origin/step/count, first sample and microsecond interval in the specified words (3-D, irregular, 2-D); _parse_coordinates '
+         'regenerates origin + k*step with int32 wrap and the version-gated interval unit; lemmas: the signed-pack/unsigned-read/int64-arange/int32-wrap chain is the identity '
+         'on every int32 axis with non-zero step (descending included). Float rounding of the sample axis is assumed exact (S3a).',
+    note='S3(a) exact reals for the sample axis; reader fields outside _parse_* (structured flag, 2-D branch of __init__) not yet under contract')
